@@ -857,6 +857,10 @@ func ruleM3(c *Ctx) {
 				}
 			}
 		})
+		if !locked && m3Internal(c.P, fn) {
+			c.ok(key, pos, "a package-internal walker: unexported, never used as a value, and every function literal handed to it is straight-line package code that calls no function value of its own")
+			continue
+		}
 		if locked {
 			c.ok(key, pos, "itercount is incremented before the first callback")
 		} else {
@@ -877,4 +881,84 @@ func iterResult(fn *ssa.Function) (types.Type, bool) {
 		}
 	}
 	return nil, false
+}
+
+// m3Internal: fn is an unexported walker (a range-over-func iterator kept inside the package, such as
+// `for e := range ht.inOrder`) whose callbacks are all function literals of the package that do not in
+// turn call a function value they were given - so no caller-supplied code runs during the walk.
+func m3Internal(p *Prog, fn *ssa.Function) bool {
+	if fn.Object() == nil || fn.Object().Exported() || fn.Parent() != nil {
+		return false
+	}
+	sites := 0
+	ok := true
+	for _, g := range p.Funcs {
+		eachInstr(g, func(in ssa.Instruction) {
+			// any use of fn other than a direct call disqualifies it (it may escape as an iter.Seq)
+			for _, op := range in.Operands(nil) {
+				if *op == ssa.Value(fn) {
+					ci, isCall := in.(ssa.CallInstruction)
+					if !isCall || ci.Common().Value != ssa.Value(fn) {
+						ok = false
+					}
+				}
+			}
+			ci, isCall := in.(ssa.CallInstruction)
+			if !isCall {
+				// a method value `ht.inOrder` (as in `for e := range ht.inOrder`): the bound closure must
+				// only ever be called
+				if mc, isMC := in.(*ssa.MakeClosure); isMC {
+					if w, isFn := mc.Fn.(*ssa.Function); isFn && w.Name() == fn.Name()+"$bound" && w.Pkg == nil && len(mc.Bindings) == 1 && types.Identical(mc.Bindings[0].Type(), fn.Signature.Recv().Type()) {
+						if refs := mc.Referrers(); refs != nil {
+							for _, r := range *refs {
+								if c3, isC := r.(ssa.CallInstruction); !isC || c3.Common().Value != ssa.Value(mc) {
+									if _, dbg := r.(*ssa.DebugRef); !dbg {
+										ok = false
+									}
+								}
+							}
+						}
+					}
+				}
+				return
+			}
+			isSite := ci.Common().StaticCallee() == fn
+			if mc, isMC := ci.Common().Value.(*ssa.MakeClosure); isMC {
+				if w, isFn := mc.Fn.(*ssa.Function); isFn && w.Name() == fn.Name()+"$bound" && fn.Signature.Recv() != nil && len(mc.Bindings) == 1 && types.Identical(mc.Bindings[0].Type(), fn.Signature.Recv().Type()) {
+					isSite = true
+				}
+			}
+			if !isSite {
+				return
+			}
+			sites++
+			for _, a := range ci.Common().Args {
+				if _, isFunc := a.Type().Underlying().(*types.Signature); !isFunc {
+					continue
+				}
+				mc, isLit := a.(*ssa.MakeClosure)
+				var body *ssa.Function
+				if isLit {
+					body, _ = mc.Fn.(*ssa.Function)
+				} else if f, isFn := a.(*ssa.Function); isFn {
+					body = f
+				}
+				if body == nil || fnPkgPath(body) != fnPkgPath(fn) {
+					ok = false
+					continue
+				}
+				eachInstr(body, func(in2 ssa.Instruction) {
+					c2, isCall := in2.(ssa.CallInstruction)
+					if !isCall || c2.Common().IsInvoke() || c2.Common().StaticCallee() != nil {
+						return
+					}
+					if _, isBuiltin := c2.Common().Value.(*ssa.Builtin); isBuiltin {
+						return
+					}
+					ok = false // calls a function value: could be the outer caller's yield
+				})
+			}
+		})
+	}
+	return ok && sites > 0
 }
